@@ -51,6 +51,7 @@ type c07Item struct {
 type c07Red struct {
 	Take  int    `json:"take"`            // -1: consume everything; j>=0: stop after j values
 	D     int    `json:"d,omitempty"`     // sleep per consumed value
+	D0    int    `json:"d0,omitempty"`    // sleep before the first receive
 	Early int    `json:"early,omitempty"` // results written before consuming
 	Late  int    `json:"late,omitempty"`  // results written after consuming
 	A     string `json:"a,omitempty"`     // then: "" | cancel | cancelnil | panic
@@ -71,9 +72,20 @@ type c07Case struct {
 	Reps     int       `json:"reps,omitempty"` // run the call that many times (fresh bubble each), first failing verdict counts
 }
 
+// Delays are ints in the case. 0..99: that many ticks (1 ms) — small numbers with
+// many ties; 100+i: the i-th magnitude of a scale-free set (1 ns .. 30 days, with
+// 5 s +/- 1 ns in it); >= c07Far: never reached.
+var c07Mags = []time.Duration{1, time.Second, 5*time.Second - 1, 5 * time.Second, 5*time.Second + 1,
+	10 * time.Second, time.Minute, time.Hour, 30 * 24 * time.Hour}
+
+const c07MagBase = 100
+
 func (c c07Case) ticks(n int) time.Duration {
 	if c.Zero && n < c07Far {
 		return 0
+	}
+	if n >= c07MagBase && n < c07MagBase+len(c07Mags) {
+		return c07Mags[n-c07MagBase]
 	}
 	return time.Duration(n) * c07Tick
 }
@@ -221,16 +233,18 @@ type c07Run struct {
 	c     c07Case
 	start time.Time
 
-	mu        sync.Mutex
-	events    []c07Event
-	mapped    map[int]int
-	written   map[any]int
-	seen      map[any]int
-	claimed   map[int]bool
-	unclaimed []string
-	cur, max  int
-	generated int
-	genDone   bool
+	mu      sync.Mutex
+	events  []c07Event
+	mapped  map[int]int
+	written map[any]int
+	seen    map[any]int
+	claimed map[int]bool
+	// longest virtual time a mapper spent inside Writer.Write (blocked on the collector)
+	maxWriteWait time.Duration
+	unclaimed    []string
+	cur, max     int
+	generated    int
+	genDone      bool
 
 	errs   []*c07Err
 	redErr *c07Err
@@ -388,7 +402,15 @@ func (r *c07Run) mapper(item any, w mr.Writer, cancel func(error)) {
 		r.mu.Lock()
 		r.written[v]++
 		r.mu.Unlock()
+		t0 := r.now()
 		w.Write(v)
+		if d := r.now() - t0; d > 0 {
+			r.mu.Lock()
+			if d > r.maxWriteWait {
+				r.maxWriteWait = d
+			}
+			r.mu.Unlock()
+		}
 	}
 	r.act(it.A, fmt.Sprintf("item%d", i), i, r.errs[i], cancel)
 }
@@ -422,6 +444,7 @@ func (r *c07Run) reducer(pipe <-chan any, w mr.Writer, cancel func(error)) {
 		}
 	}
 	write(rd.Early)
+	r.sleep(rd.D0)
 	if rd.Take != 0 {
 		n := 0
 		for v := range pipe {
@@ -452,17 +475,26 @@ func c07Call(f func()) (pv any, panicked bool) {
 
 func (r *c07Run) horizon() time.Duration {
 	c := r.c
-	n := c.GenTail + 16
+	const max = 200 * 365 * 24 * time.Hour
+	h := 17 * c07Tick
+	add := func(d time.Duration, times int) {
+		for i := 0; i < times && h < max; i++ {
+			h += d
+		}
+	}
+	add(c.ticks(c.GenTail), 1)
+	add(c.ticks(c.Red.D0), 1)
 	if c.CtxAt < c07Far {
-		n += c.CtxAt
+		add(c.ticks(c.CtxAt), 1)
 	}
 	vals := 1
 	for _, it := range c.Items {
-		n += it.G + it.D
+		add(c.ticks(it.G), 1)
+		add(c.ticks(it.D), 1)
 		vals += it.W
 	}
-	n += c.Red.D * vals
-	return c.ticks(n) + c07Tick
+	add(c.ticks(c.Red.D), vals)
+	return h
 }
 
 // run is the root function of the bubble.
@@ -710,6 +742,19 @@ func (r *c07Run) judge(res kit.BubbleResult) (v kit.Verdict) {
 	}
 	if c.Red.RV == "nil" {
 		cls["result:nil(unspecified)"] = true
+	}
+	switch {
+	case r.maxWriteWait > 5*time.Second:
+		cls["writer-blocked>5s-on-slow-reducer"] = true
+	case r.maxWriteWait > 0:
+		cls["writer-blocked<=5s"] = true
+	}
+	big := false
+	for _, it := range c.Items {
+		big = big || it.D >= c07MagBase || it.G >= c07MagBase
+	}
+	if big || c.Red.D >= c07MagBase || c.Red.D0 >= c07MagBase || (c.CtxAt >= c07MagBase && c.CtxAt < c07Far) {
+		cls["delay-magnitudes"] = true
 	}
 
 	nPanics := 0
@@ -1173,6 +1218,15 @@ func c07Gen(zero bool) func(rt *rapid.T) c07Case {
 		mixed := !fin && rapid.IntRange(0, 3).Draw(rt, "values") < 2
 		vkinds := []string{"nil", "", "nilptr", "zero", "", "str", "struct", "empty", "zerostruct"}
 		xkinds := []string{"nil", "", "", "nilptr", "zero"}
+		// delay magnitudes: mostly small tick counts (many ties); in a quarter of the
+		// cases every delay may also be one of the scale-free magnitudes
+		mags := rapid.IntRange(0, 3).Draw(rt, "mags") == 0
+		mag := func(label string, small int) int {
+			if mags && rapid.IntRange(0, 2).Draw(rt, label+"big") == 0 {
+				return c07MagBase + rapid.IntRange(0, len(c07Mags)-1).Draw(rt, label+"mag")
+			}
+			return small
+		}
 		for i := 0; i < n; i++ {
 			it := c07Item{W: 1}
 			if slowGen {
@@ -1180,7 +1234,10 @@ func c07Gen(zero bool) func(rt *rapid.T) c07Case {
 			} else {
 				it.G = c07Pick(rt, "g", 0, 0, 0, 0, 0, 1)
 			}
-			it.D = c07Pick(rt, "d", 0, 0, 1, 1, 2, 3, 5, 8)
+			it.D = mag("d", c07Pick(rt, "d", 0, 0, 1, 1, 2, 3, 5, 8))
+			if slowGen {
+				it.G = mag("g", it.G)
+			}
 			if !ones {
 				it.W = c07Pick(rt, "wr", 0, 1, 1, 2, 3)
 			}
@@ -1204,7 +1261,17 @@ func c07Gen(zero bool) func(rt *rapid.T) c07Case {
 			if rapid.IntRange(0, 9).Draw(rt, "takekind") < 3 {
 				c.Red.Take = rapid.IntRange(0, total+1).Draw(rt, "take")
 			}
-			c.Red.D = c07Pick(rt, "rd", 0, 0, 0, 1, 2)
+			c.Red.D = mag("rd", c07Pick(rt, "rd", 0, 0, 0, 1, 2))
+			c.Red.D0 = mag("rd0", c07Pick(rt, "rd0", 0, 0, 0, 0, 1, 3))
+			// a slow reducer behind a full collector: writers really block, for long
+			if rapid.IntRange(0, 5).Draw(rt, "slowred") == 0 {
+				slow := c07MagBase + rapid.IntRange(2, len(c07Mags)-1).Draw(rt, "slowmag")
+				if rapid.Bool().Draw(rt, "slowfirst") {
+					c.Red.D0 = slow
+				} else {
+					c.Red.D = slow
+				}
+			}
 			if c.Entry != "void" {
 				switch rapid.IntRange(0, 15).Draw(rt, "rw") {
 				case 0, 1:
@@ -1251,7 +1318,7 @@ func c07Gen(zero bool) func(rt *rapid.T) c07Case {
 			if !fin && rapid.IntRange(0, 9).Draw(rt, "ctxkind") < 4 {
 				c.Ctx = rapid.SampledFrom([]string{"deadline", "deadline", "cancelat", "cancelled"}).Draw(rt, "ctx")
 				if c.Ctx != "cancelled" {
-					c.CtxAt = c07Pick(rt, "at", 0, 1, 2, 3, 4, 6, 9, 15, 40)
+					c.CtxAt = mag("at", c07Pick(rt, "at", 0, 1, 2, 3, 4, 6, 9, 15, 40))
 				}
 			}
 		} else if !fin && rapid.IntRange(0, 5).Draw(rt, "ctxfar") == 0 {
